@@ -798,7 +798,7 @@ def standin_string_views(tier, seed):
             seen.add(f_["failed"])
             uniq.append(f_)
     return dict(function="cirq-core/cirq/ops/pauli_string.py:PauliString[sparse matrix, decomposition, powers, exponentials, mutable form]", case="string-views",
-                bound="seeded strings on <= 3 qubits x 6 unit coefficients x random qubit orders; powers 0.5, 2, 3, -0.5, 0.25; 4 exponentials", cases=cases, distinct=cases, failures=len(uniq), exhaustive=False, _fails=uniq[:4])
+                bound="seeded strings on <= 3 qubits x 6 unit coefficients x random qubit orders; powers 0.5, 2, 3, -0.5, 0.25; 4 exponentials; in-place products with a string and with 2- / 3-item lists on either side", cases=cases, distinct=cases, failures=len(uniq), exhaustive=False, _fails=uniq[:4])
 standin_string_views.prop = "C14"
 
 
